@@ -2660,3 +2660,19 @@ Definition ex_att_body : bytes :=
 Definition ex_att_file : bytes := magic ++ ex_hdr ++ frame OpAttachment ex_att_body ++ ex_msg [x64].
 Definition ex_events (x : outcome (list event * err * lstate)) : list event :=
   match x with Ok (a, _, _) => a | _ => [] end.
+
+(* any callback mode: a clean EOF on a failing source is not caused by the failure *)
+Theorem eof_not_caused_by_failure_gen_stmt : forall lo dstream e,
+  e <> EEOF -> e <> EUnexpectedEOF -> e <> ETruncated -> e <> EInvalidChunkCrc ->
+  (forall c a, snd (dstream c a (Some e)) = Some e) ->
+  (forall c a t, exists u, fst (dstream c (a ++ t) None) = fst (dstream c a (Some e)) ++ u) ->
+  forall fuel fuel' p rest sk evsF sF evsC finC sC,
+    lex_all lo dstream fuel {| r_buf := p; r_end := Some e; r_seek := sk |} = Ok (evsF, EEOF, sF) ->
+    lex_all lo dstream fuel' {| r_buf := p ++ rest; r_end := None; r_seek := sk |} = Ok (evsC, finC, sC) ->
+    finC = EEOF /\ evsC = evsF.
+Proof.
+  intros lo dstream e H1 H2 H3 H4 Hp Hm fuel fuel' p rest sk evsF sF evsC finC sC HF HC.
+  destruct (error_prefix_full_stmt lo dstream e H1 H2 H3 H4 Hp Hm _ _ _ _ _ _ _ _ _ _ _ HF HC) as [_ [E|[E1 E2]]].
+  - congruence.
+  - split; congruence.
+Qed.
